@@ -205,6 +205,9 @@ func zzCopy(failAt int) {
 		if !strings.HasPrefix(name, zzTgt) {
 			return false
 		}
+		// records the order of target operations across the copy goroutines so that the
+		// native twin repeats it (no schedule exploration here: budget 0)
+		zzTurnSig(zzSigStr(op, name))
 		calls++
 		return calls-1 == failAt
 	}
@@ -280,4 +283,15 @@ func zzCopy(failAt int) {
 			zzAssert(n == 0, "C14_existing_blob_not_transferred")
 		}
 	}
+}
+
+func zzSigStr(parts ...string) int {
+	h := 7
+	for _, s := range parts {
+		for i := 0; i < len(s); i++ {
+			h = (h*31 + int(s[i])) % 1000003
+		}
+		h = (h*31 + 1) % 1000003
+	}
+	return h
 }
